@@ -4,6 +4,6 @@ CONSTANTS
   MaxDepth = 4
   Dedup = TRUE
   NameFn <- GoodName
-INVARIANTS Once Complete Injective NoDivergeIfFinite
-PROPERTY Terminates
+INVARIANTS Once Complete Injective NoDivergeIfFinite RefusedOnlyIfInfinite
+PROPERTIES Terminates AlwaysEnds
 CHECK_DEADLOCK FALSE
